@@ -172,13 +172,14 @@ def fantasy(S, n, f, m, lik, cfg, pattern, depth):
 def model_list_fantasy(S, lik, cfg):
     """IndependentModelList.get_fantasy_model: member k of the fantasy list = member k conditioned on ITS OWN fantasy data
        (routing of inputs / targets / per-member noise), source list untouched"""
-    sizes = [(2, 1, 1), (1, 2, 1)]  # (n, f, m) per member
+    sizes = [(2, 1, 1), (1, 2, 1)] if lik != "mixed" else [(2, 2, 1), (1, 2, 1)]  # (n, f, m) per member (mixed: same f)
     mem = []
     for k, (n, f, m) in enumerate(sizes):
         N = n + f + m
         x, xf, xs = labels(0, n), labels(n, n + f), labels(n + f, N)
         y, yf = S.randn(n), S.randn(f)
-        if lik == "gaussian":
+        mlik = lik if lik != "mixed" else ("fixed" if k == 0 else "gaussian")
+        if mlik == "gaussian":
             likelihood = gpytorch.likelihoods.GaussianLikelihood()
         else:
             likelihood = gpytorch.likelihoods.FixedNoiseGaussianLikelihood(S.rand(n, lo=0.05, hi=0.5))
@@ -192,19 +193,19 @@ def model_list_fantasy(S, lik, cfg):
         declare_params(S, model.mean_module, "mean%d_" % k)
         declare_params(S, likelihood, "lik%d_" % k)
         nf = None
-        if lik == "fixed":
+        if mlik == "fixed":
             S.sym_tensor(likelihood.noise_covar.noise, "fixednoise%d" % k, lo=1e-6)
             nf = S.rand(f, lo=0.05, hi=0.5)
             NF = S.sym_tensor(nf, "fantnoise%d" % k, positive=True)
         mem.append(dict(n=n, f=f, m=m, N=N, x=x, xf=xf, xs=xs, y=y, yf=yf, Y=Y, YF=YF, lik=likelihood, Gs=Gs, Gc=Gc, table=table,
-                        model=model, nf=nf, NF=NF if lik == "fixed" else None))
+                        model=model, nf=nf, NF=NF if mlik == "fixed" else None, mlik=mlik))
     with S.mode():
         for d in mem:
             n, f, N = d["n"], d["f"], d["N"]
             Ntr = n + f
             Sd = np.empty((Ntr,), dtype=object)
             Sd[:n] = _noise_diag(d["lik"], d["x"], (), n)
-            if lik == "gaussian":
+            if d["mlik"] == "gaussian":
                 Sd[n:] = as_sym_arr(SH.get(d["lik"].noise)).reshape(-1)[0]
             else:
                 Sd[n:] = d["NF"]
@@ -224,7 +225,7 @@ def model_list_fantasy(S, lik, cfg):
             before = ml(*[d["xs"] for d in mem])
             b_mean = [as_sym_arr(SH.get(o.mean)).copy() for o in before]
             b_cov = [as_sym_arr(SH.get(o.covariance_matrix)).copy() for o in before]
-            kw = {"noise": [d["nf"] for d in mem]} if lik == "fixed" else {}
+            kw = {"noise": [d["nf"] for d in mem]} if lik in ("fixed", "mixed") else {}  # mixed: [tensor, None]
             fml = S.must_not_raise("IndependentModelList.get_fantasy_model",
                                    lambda: ml.get_fantasy_model([d["xf"] for d in mem], [d["yf"] for d in mem], **kw))
             S.check_concrete(isinstance(fml, gpytorch.models.IndependentModelList) and len(fml.models) == len(mem), "fantasy list has one member per model")
@@ -323,6 +324,7 @@ def scenarios(tier, seed):
         add(n=1, f=1, m=1, lik="fixed_learn", cfg=cfgs[3], pattern="plain", depth=2)
         for lik_ in ("gaussian", "fixed"):
             out.append({"sid": "model_list_fantasy:lik=%s,cfg=%s" % (lik_, cfg_id(cfgs[0])), "fn": "model_list_fantasy", "params": {"lik": lik_, "cfg": cfgs[0]}})
+        out.append({"sid": "model_list_fantasy:lik=mixed,cfg=%s" % cfg_id(cfgs[2]), "fn": "model_list_fantasy", "params": {"lik": "mixed", "cfg": cfgs[2]}})
         out.append({"sid": "wiski_fantasy:fpv=False,depth=1", "fn": "wiski_fantasy", "params": {"fpv": False, "depth": 1}})
         out.append({"sid": "wiski_fantasy:fpv=True,depth=2", "fn": "wiski_fantasy", "params": {"fpv": True, "depth": 2}})
         out.append({"sid": "multitask_fantasy:n=1,f=2,m=1,t=2,fbatch=0", "fn": "multitask_fantasy", "params": {"n": 1, "f": 2, "m": 1, "t": 2, "cfg": cfgs[0], "fbatch": 0}})
@@ -335,7 +337,7 @@ def scenarios(tier, seed):
                 add(n=2, f=2, m=1, lik=lik, cfg=cfg, pattern="fbatch_shared", depth=1)
             add(n=2, f=1, m=1, lik="gaussian", cfg=cfg, pattern="model_batch", depth=1)
             add(n=2, f=1, m=1, lik="gaussian", cfg=cfg, pattern="fbatch_shared", depth=2)
-            for lik_ in ("gaussian", "fixed"):
+            for lik_ in ("gaussian", "fixed", "mixed"):
                 out.append({"sid": "model_list_fantasy:lik=%s,cfg=%s" % (lik_, cfg_id(cfg)), "fn": "model_list_fantasy", "params": {"lik": lik_, "cfg": cfg}})
             for fb in (0, 2):
                 out.append({"sid": "multitask_fantasy:n=1,f=1,m=1,t=2,fbatch=%d,cfg=%s" % (fb, cfg_id(cfg)), "fn": "multitask_fantasy",
